@@ -6,6 +6,7 @@ import (
 	"fmt"
 	"sort"
 	"strings"
+	"time"
 
 	"github.com/PowerDNS/lightningstream/lmdbenv"
 	"github.com/PowerDNS/lightningstream/lmdbenv/header"
@@ -351,6 +352,108 @@ func init() {
 	//  (O2) an application write made before the step survives, unless the shadow holds a version
 	//       that wins last-writer-wins against (detection time, that write);
 	//  (O3) entries the application did not touch and the snapshot does not mention keep their bytes.
+	// txn.loadheld <id> <snapshot> <lastSynced> <now> <cutoff> <ops> / txn.sendheld <id> <now>
+	// <cutoff> <ops> (non-native): the application has a write transaction open (ops applied, not
+	// committed) when LoadOnce / SendOnce is called, and commits while Lightning Stream waits for
+	// the write lock. What Lightning Stream stamps must not lie before that commit: a captured
+	// change carries the time of its detection (C11), a snapshot the time its image was taken (C06).
+	held := func(i *implInst, ops string, call func()) (commitAt time.Time, appOK bool) {
+		opened := make(chan struct{})
+		hold := make(chan struct{})
+		done := make(chan string, 1)
+		appBeforeCommit = func() { close(opened); <-hold }
+		go func() { done <- implOps["env.app"]([]string{i.id, ops}) }()
+		select {
+		case <-opened:
+		case out := <-done:
+			appBeforeCommit = nil
+			call()
+			return time.Time{}, strings.HasPrefix(out, "ok")
+		}
+		appBeforeCommit = nil
+		fin := make(chan struct{})
+		go func() { call(); close(fin) }()
+		time.Sleep(2 * time.Millisecond) // Lightning Stream reaches env.Update and waits
+		commitAt = time.Now()
+		close(hold)
+		out := <-done
+		<-fin
+		return commitAt, strings.HasPrefix(out, "ok")
+	}
+	implOps["txn.loadheld"] = func(a []string) string {
+		i := insts[a[0]]
+		if i.native {
+			return "bad-op"
+		}
+		snap, err := parseSnapArg(a[1])
+		if err != nil {
+			return "err snapshot-arg"
+		}
+		ls := relTxn(i, a[2])
+		var txnID header.TxnID
+		var lc bool
+		var lerr error
+		w := beginWindow(u64(a[3]))
+		commitAt, appOK := held(i, a[5], func() {
+			txnID, lc, lerr = i.s.LoadOnce(context.Background(), i.env, "remote", snapshot.Update{Snapshot: snap, NameInfo: snapshot.NameInfo{Kind: snapshot.KindSnapshot}}, header.TxnID(ls))
+		})
+		w.end()
+		if lerr != nil {
+			return "err " + txnErrClass(lerr)
+		}
+		if !lc {
+			i.lastRet = uint64(txnID)
+		}
+		if appOK && !commitAt.IsZero() && a[5] != "-" {
+			if img, err := imageOf(i); err == nil {
+				for _, op := range strings.Split(a[5], ",") {
+					f := strings.Split(op, ":")
+					if f[0] != "p" || len(f) < 4 {
+						continue
+					}
+					sh := img.dbis[syncer.SyncDBIShadowPrefix+string(mustUnhx(f[1]))]
+					if v, ok := shadowVer(sh, mustUnhx(f[2])); ok && !v.del && bytes.Equal(v.val, mustUnhx(f[3])) && len(v.val) > 0 &&
+						v.ts >= uint64(w.ta) && v.ts < uint64(commitAt.UnixNano()) {
+						return fmt.Sprintf("FAIL captured-change-stamped-before-its-commit key=%s stamped=%d committed-after=%d", f[2], v.ts, commitAt.UnixNano())
+					}
+				}
+			}
+		}
+		return fmt.Sprintf("ok %d %s T%d", uint64(txnID), b2s(lc), lastTxnID(i.env))
+	}
+	implOps["txn.sendheld"] = func(a []string) string {
+		i := insts[a[0]]
+		if i.native {
+			return "bad-op"
+		}
+		var txnID header.TxnID
+		var serr error
+		w := beginWindow(u64(a[1]))
+		commitAt, appOK := held(i, a[3], func() { txnID, serr = i.s.SendOnce(context.Background(), i.env) })
+		w.end()
+		if serr != nil {
+			return "err " + txnErrClass(serr)
+		}
+		i.lastRet = uint64(txnID)
+		snapStr := fmt.Sprintf("%d,%d,-", snapshot.CurrentFormatVersion, snapshot.WriteCompatFormatVersion)
+		if name, blob, err := newestBlob(i.st, i.id); err == nil {
+			msg, err := snapshot.LoadData(blob)
+			if err != nil {
+				return "FAIL stored-snapshot-undecodable " + name
+			}
+			if snapStr, err = snapOut(msg); err != nil {
+				return "FAIL stored-snapshot-entries-undecodable"
+			}
+			if appOK && !commitAt.IsZero() {
+				// the dump ran after the application's commit (it waited for the lock)
+				ni, _ := snapshot.ParseName(name)
+				if msg.Meta.TimestampNano < uint64(commitAt.UnixNano()) || ni.Timestamp.Before(commitAt.Truncate(time.Nanosecond)) {
+					return fmt.Sprintf("FAIL snapshot-claims-a-time-before-a-transaction-it-contains meta=%d name=%d committed-after=%d", msg.Meta.TimestampNano, ni.Timestamp.UnixNano(), commitAt.UnixNano())
+				}
+			}
+		}
+		return fmt.Sprintf("ok %d T%d %s", uint64(txnID), lastTxnID(i.env), snapStr)
+	}
 	// prop.c01.load <id> <snapshot> <lastSynced> <now> <cutoff> (native schema): nothing is
 	// invented by a merge - afterwards every key of an application DBI holds the version it
 	// held before, or exactly a version the snapshot carries for it (its timestamp, deleted
